@@ -37,6 +37,7 @@ from .. import tlc
 # so "&" in front of a marker is never a character reference.
 RE_MARK = re.compile(r"zqj([ab])(\d+)x")
 RE_TAINT = re.compile(r"zq", re.I)
+RE_VERSION = re.compile(r"\s*\(v(\d+)\.(\d+)\)|\.(\d+)\.(\d+)(?![\w.])")
 RE_DOTTED = re.compile(r"[A-Za-z_][A-Za-z0-9_]*(?:\.[A-Za-z_][A-Za-z0-9_]*)+")
 
 VOID = ["area", "base", "br", "col", "embed", "hr", "img", "input", "link", "meta", "param", "source", "track", "wbr"]
@@ -175,6 +176,18 @@ class Tokenizer(html.parser.HTMLParser):
     def unknown_decl(self, data):
         self._comment("cdata", data)
 
+    def _refs(self, d):
+        """types of the universe named by character data: a dotted full name, exact when its version follows as " (vM.m)" (the way
+        the templates print it) or ".M.m" (the way PyDSDL prints it), otherwise every version of that name"""
+        res = set()
+        for m in RE_DOTTED.finditer(d):
+            vs = self.names.get(m.group(0))
+            if vs:
+                v = RE_VERSION.match(d, m.end())
+                key = (int(v.group(1) or v.group(3)), int(v.group(2) or v.group(4))) if v else None
+                res.update([vs[key]] if key in vs else vs.values())
+        return sorted(res)
+
     def _comment(self, what, data):
         self._add({"k": "comment", "what": what, "tm": nmarks(data), "tmo": nopen(data), "tn": ntaint(data)})
 
@@ -218,7 +231,7 @@ class Tokenizer(html.parser.HTMLParser):
                 if e["raw"]:
                     e["p"] = pieces(d, "none")
                 else:
-                    e["refs"] = sorted({self.names[m.group(0)] for m in RE_DOTTED.finditer(d) if m.group(0) in self.names})
+                    e["refs"] = self._refs(d)
                     was_open = self.open_marks > 0
                     e["p"] = pieces(d, "span", self.open_marks)
                     for p in e["p"]:
@@ -265,14 +278,16 @@ class Universe:
     def full(self, t):
         return ".".join(t["ns"] + [t["name"]])
 
+    def ver(self, t):
+        return tuple(t.get("ver", (1, 0)))
+
     def type_names(self):
-        """full name -> index; a service also names its request and response types"""
+        """full name -> {(major, minor): index}; a service also names its request and response types"""
         res = {}
         for i, t in enumerate(self.case["types"]):
-            res[self.full(t)] = i
-            if t["kind"] == "service":
-                res[self.full(t) + ".Request"] = i
-                res[self.full(t) + ".Response"] = i
+            names = [self.full(t)] + ([self.full(t) + ".Request", self.full(t) + ".Response"] if t["kind"] == "service" else [])
+            for n in names:
+                res.setdefault(n, {})[self.ver(t)] = i
         return res
 
     def roots(self):
@@ -310,7 +325,7 @@ class Universe:
                 if r.get("where", "field") != where:
                     continue
                 k += 1
-                ref = "%s.1.0" % self.full(T[r["to"]])
+                ref = "%s.%d.%d" % ((self.full(T[r["to"]]),) + self.ver(T[r["to"]]))
                 ref += {"plain": "", "farr": "[2]", "varr": "[<=3]"}[r["how"]]
                 out.append("%s zqf%d%s%d\n" % (ref, i, tag, k))
             fd = self.span(t.get("fdoc", 0)) if first else ""
@@ -334,7 +349,7 @@ class Universe:
         for i, t in enumerate(self.case["types"]):
             d = root.joinpath("dsdl", *t["ns"])
             d.mkdir(parents=True, exist_ok=True)
-            (d / ("%s.1.0.dsdl" % t["name"])).write_text(self.dsdl_text(i), encoding="utf-8")
+            (d / ("%s.%d.%d.dsdl" % ((t["name"],) + self.ver(t)))).write_text(self.dsdl_text(i), encoding="utf-8")
         for nd in self.case.get("nsdocs", []):
             d = root.joinpath("dsdl", *nd["ns"])
             d.mkdir(parents=True, exist_ok=True)
@@ -391,7 +406,7 @@ def events_of_run(pages, uni, run_id, pg0):
     names = uni.type_names()
     nsp = max(uni.spans) if uni.spans else 0
     exp = [cps(uni.spans.get(i, "")) for i in range(1, nsp + 1)]
-    ev = [{"k": "run", "run": run_id, "exp": exp}]
+    ev = [{"k": "run", "run": run_id, "exp": exp, "nt": len(uni.case["types"])}]
     index, links, spans_seen, amb = {}, [], {}, set()
     for j, (path, text) in enumerate(pages.items()):
         pg = pg0 + j + 1
@@ -489,7 +504,7 @@ def judge(ctx, results, per_batch=None):
                 if rec["tag"] == "LINKS":
                     judged[rec["run"]] = rec["judged"]
                     continue
-                out.setdefault(rec["pg"] // 1000 if rec["pg"] else -1, []).append(rec)
+                out.setdefault(rec["run"] if "run" in rec else (rec["pg"] // 1000 if rec["pg"] else -1), []).append(rec)
     shutil.rmtree(tdir, ignore_errors=True)
     if -1 in out:
         raise MachineryFailure("T-layer record without a page: %r" % out[-1][:3])
@@ -589,7 +604,29 @@ def verdicts(ctx, results, cases, origin, only=None):
                            page=path, clause=cl, detail=rec["detail"], event=rec["n"])
                 else:
                     raise MachineryFailure("unknown clause from the T-layer: %r" % rec)
+        T = case["universe"]["types"]
+
+        def tname(i):
+            return "%s.%d.%d" % ((uni.full(T[i]),) + uni.ver(T[i]))
+
         for rec in rr:
+            if rec["tag"] == "REJECT" and rec.get("detail") in ("type-without-resolving-link", "anchor-shared-by-types"):
+                summ["links"].add(("", rec["detail"], rec["detail"]))
+                if damaged:  # pages re-read by injected markup do not show what the generator listed
+                    ctx.cov["run_level_rejections_folded_pages_damaged_by_injection"] = ctx.cov.get("run_level_rejections_folded_pages_damaged_by_injection", 0) + 1
+                elif rec["detail"] == "type-without-resolving-link":
+                    i = rec["type"]
+                    others = [j for j in range(len(T)) if j != i and uni.full(T[j]) == uni.full(T[i])]
+                    report("C20|html.link|type-without-resolving-link|%s" % ("one-of-several-versions" if others else T[i]["kind"]),
+                           "type %s of the input is named by no hyperlink that resolves: it is not listed with an anchor on any page%s"
+                           % (tname(i), (" (other versions of the same name: %s)" % ", ".join(tname(j) for j in others)) if others else ""),
+                           clause="html.link", detail=rec["detail"], type=tname(i))
+                else:
+                    report("C20|html.link|anchor-shared-by-types",
+                           "hyperlinks for the different types %s lead to the same anchor %s#%s"
+                           % (", ".join(tname(i) for i in rec["types"]), "/".join(seg(rec["to"])), to_s(rec["frag"])),
+                           clause="html.link", detail=rec["detail"])
+                continue
             path = r["index"][rec["pg"]]
             if rec["tag"] == "NOTE":
                 summ["fidelity"].add((path, rec["arg"]))
@@ -607,7 +644,6 @@ def verdicts(ctx, results, cases, origin, only=None):
                     # behind injected markup on its own page (possibly introduced by the payload)
                     ctx.cov["link_rejections_folded_target_page_damaged_by_injection"] = ctx.cov.get("link_rejections_folded_target_page_damaged_by_injection", 0) + 1
                     continue
-                T = case["universe"]["types"]
                 tk = sorted({T[i]["kind"] for i in rec["refs"]})
                 if rec["detail"] == "page-not-produced" and page_kind(path) == "nested-namespace-page" and href.startswith("../"):
                     sig = "C20|html.link|nested-namespace-page-relative-root"
@@ -616,7 +652,7 @@ def verdicts(ctx, results, cases, origin, only=None):
                 else:
                     sig = "C20|html.link|%s|%s|%s" % (page_kind(path), rec["detail"], "+".join(tk))
                 report(sig, "hyperlink %r for a reference to %s on page %s does not resolve: %s"
-                       % (href, ", ".join(uni.full(T[i]) for i in rec["refs"]), path, rec["detail"]),
+                       % (href, ", ".join(tname(i) for i in rec["refs"]), path, rec["detail"]),
                        page=path, clause="html.link", detail=rec["detail"], href=href)
         # every type-reference hyperlink the harness saw on the pages was put before the link clause of P, whatever its style
         # (asserted on runs whose pages are read as the generator wrote them, i.e. without injected markup)
@@ -647,15 +683,18 @@ def universe_from_shape(sh, payloads, k):
     dkind = "struct" if dep else sh["dkind"]
     n1, n2, n3 = seg(sh["names"])
     spans = {i + 1: payloads[(k + i) % len(payloads)] for i in range(5)}
-    types = [
-        {"ns": seg(sh["dst"]), "name": n1, "kind": dkind, "deprecated": dep, "refs": [], "doc": 1, "fdoc": 2, "cdoc": 3,
-         "cval": CVALS[k % len(CVALS)]},
-        {"ns": seg(sh["src"]), "name": n2, "kind": skind, "deprecated": dep,
-         "refs": [{"to": 0, "how": sh["how"], "where": "resp" if sh["skind"] == "service_resp" else "field"}], "doc": 4,
-         "cval": CVALS[(k + 3) % len(CVALS)]},
-    ]
+    where = "resp" if sh["skind"] == "service_resp" else "field"
+    # the target exists in several versions under one short name (same body, so minor versions stay bit-compatible); indices as in the model
+    types = [{"ns": seg(sh["dst"]), "name": n1, "ver": list(v), "kind": dkind, "deprecated": dep, "refs": [],
+              "doc": 1 if j == 0 else 0, "fdoc": 2 if j == 0 else 0, "cdoc": 3 if j == 0 else 0, "cval": CVALS[(k + j) % len(CVALS)]}
+             for j, v in enumerate(sh["versions"])]
+    nv = len(types)
+    types.append({"ns": seg(sh["src"]), "name": n2, "kind": skind, "deprecated": dep,
+                  "refs": [{"to": j, "how": sh["how"] if n == k % len(sh["used"]) else "plain", "where": where}
+                           for n, j in enumerate(sorted(sh["used"]))], "doc": 4,
+                  "cval": CVALS[(k + 3) % len(CVALS)]})
     if sh["chain"]:
-        types.append({"ns": ["zqra", "zqs"], "name": n3, "kind": "struct", "deprecated": dep, "refs": [{"to": 1, "how": "plain"}]})
+        types.append({"ns": ["zqra", "zqs"], "name": n3, "kind": "struct", "deprecated": dep, "refs": [{"to": nv, "how": "plain"}]})
     return {"types": types, "nsdocs": [{"ns": seg(sh["src"]), "doc": 5}], "spans": spans}
 
 
@@ -695,13 +734,17 @@ def rand_universe(rng):
         t = {"ns": rng.choice(nss), "name": name, "kind": kind, "deprecated": rng.random() < 0.15, "refs": [],
              "doc": payload(True) if rng.random() < 0.8 else 0, "fdoc": payload(False) if rng.random() < 0.5 else 0,
              "cdoc": payload(False) if rng.random() < 0.3 else 0, "cval": rng.choice(CVALS)}
-        cands = [j for j in range(i) if types[j]["kind"] != "service"]
+        cands = [j for j in range(len(types)) if types[j]["kind"] != "service"]
         for j in rng.sample(cands, min(len(cands), rng.choice([0, 1, 1, 2, 3]))):
             t["refs"].append({"to": j, "how": rng.choice(["plain", "plain", "farr", "varr"]),
                               "where": rng.choice(["field", "resp"]) if kind == "service" else "field"})
             if types[j]["deprecated"]:
                 t["deprecated"] = True
         types.append(t)
+        # sometimes the same short name again in the same namespace with other versions (same body: bit-compatible)
+        if kind != "service" and rng.random() < 0.3 and len(types) < 10:
+            for v in rng.sample([[1, 1], [2, 0], [1, 2], [0, 1]], rng.choice([1, 2])):
+                types.append(dict(t, ver=v, doc=payload(True) if rng.random() < 0.5 else 0, fdoc=0, cdoc=0, refs=[dict(x) for x in t["refs"]]))
     nsdocs = [{"ns": n, "doc": payload(True)} for n in nss if rng.random() < 0.4 and any(t["ns"][:len(n)] == n for t in types)]
     return {"types": types, "nsdocs": nsdocs, "spans": spans}
 
@@ -766,6 +809,7 @@ def run(ctx):
         ("negtext", "HtmlDocGen", "HtmlDocGen_negtext", 1),
         ("neglinks", "HtmlDocGen", "HtmlDocGen_neglinks", 1),
         ("negprefix", "HtmlDocGen", "HtmlDocGen_negprefix", 1),
+        ("negbyname", "HtmlDocGen", "HtmlDocGen_negbyname", 1),
         ("emit", "HtmlDocGen", ctx.pick("HtmlDocGen_emitq", "HtmlDocGen_emit"), 1),  # 2. spec -> code: stimuli + predictions
     ]
     with concurrent.futures.ThreadPoolExecutor(max_workers=len(plan)) as ex:
@@ -788,7 +832,7 @@ def run(ctx):
     if R["vacuity"].violated != "NoSpanEverAccepted":
         raise MachineryFailure("vacuity control: no token string with a sentinel span is accepted by the acceptor (%s)" % R["vacuity"].error)
     controls = {}
-    for k, inv in (("negtext", "TextRefinesP"), ("neglinks", "LinksRefineP"), ("negprefix", "LinksRefineP")):
+    for k, inv in (("negtext", "TextRefinesP"), ("neglinks", "LinksRefineP"), ("negprefix", "LinksRefineP"), ("negbyname", "LinksRefineP")):
         if R[k].violated != inv:
             raise MachineryFailure("negative control %s: the defective variant was not refuted (%s %s)" % (k, R[k].error, R[k].violated))
         controls["HtmlDocGen_" + k] = "refuted by %s" % inv
@@ -830,7 +874,7 @@ def run(ctx):
         raise MachineryFailure("not every enumerated payload was planted (%d slots for %d payloads)" % (5 * hostile, len(payloads)))
     n_model = len(cases)
     # ---- 3. code -> spec: larger random universes (deeper trees, more types, payloads over a larger alphabet) ----------
-    for _ in range(ctx.pick(160, 2000)):
+    for _ in range(ctx.pick(130, 2000)):
         rid = len(cases)
         public = rid % 10 == 3
         cases[rid] = {"universe": rand_universe(ctx.rng), "public": public}
